@@ -55,6 +55,80 @@ var glUnits = []glUnit{
 	{"GoRtp", []glTarget{
 		{"protocol/jt1078", "Packet", "Decode"},
 	}},
+	{"GoModel", []glTarget{
+		{"protocol/model", "P0x8001", "Encode"},
+		{"protocol/model", "P0x8001", "Parse"},
+		{"protocol/model", "P0x8003", "Encode"},
+		{"protocol/model", "P0x8003", "Parse"},
+		{"protocol/model", "P0x8100", "Encode"},
+		{"protocol/model", "P0x8100", "Parse"},
+		{"protocol/model", "P0x8103", "Encode"},
+		{"protocol/model", "P0x8103", "Parse"},
+		{"protocol/model", "P0x8104", "Encode"},
+		{"protocol/model", "P0x8104", "Parse"},
+		{"protocol/model", "P0x8800", "Encode"},
+		{"protocol/model", "P0x8800", "Parse"},
+		{"protocol/model", "P0x8801", "Encode"},
+		{"protocol/model", "P0x8801", "Parse"},
+		{"protocol/model", "P0x9003", "Encode"},
+		{"protocol/model", "P0x9003", "Parse"},
+		{"protocol/model", "P0x9101", "Encode"},
+		{"protocol/model", "P0x9101", "Parse"},
+		{"protocol/model", "P0x9102", "Encode"},
+		{"protocol/model", "P0x9102", "Parse"},
+		{"protocol/model", "P0x9105", "Encode"},
+		{"protocol/model", "P0x9105", "Parse"},
+		{"protocol/model", "P0x9201", "Encode"},
+		{"protocol/model", "P0x9201", "Parse"},
+		{"protocol/model", "P0x9202", "Encode"},
+		{"protocol/model", "P0x9202", "Parse"},
+		{"protocol/model", "P0x9205", "Encode"},
+		{"protocol/model", "P0x9205", "Parse"},
+		{"protocol/model", "P0x9206", "Encode"},
+		{"protocol/model", "P0x9206", "Parse"},
+		{"protocol/model", "P0x9207", "Encode"},
+		{"protocol/model", "P0x9207", "Parse"},
+		{"protocol/model", "P0x9208", "Encode"},
+		{"protocol/model", "P0x9208", "Parse"},
+		{"protocol/model", "P0x9212", "Encode"},
+		{"protocol/model", "P0x9212", "Parse"},
+		{"protocol/model", "T0x0001", "Encode"},
+		{"protocol/model", "T0x0001", "Parse"},
+		{"protocol/model", "T0x0002", "Encode"},
+		{"protocol/model", "T0x0100", "Encode"},
+		{"protocol/model", "T0x0100", "Parse"},
+		{"protocol/model", "T0x0102", "Encode"},
+		{"protocol/model", "T0x0102", "Parse"},
+		{"protocol/model", "T0x0104", "Encode"},
+		{"protocol/model", "T0x0104", "Parse"},
+		{"protocol/model", "T0x0200", "Encode"},
+		{"protocol/model", "T0x0200", "Parse"},
+		{"protocol/model", "T0x0200AdditionExtension0x64", "Parse"},
+		{"protocol/model", "T0x0200AdditionExtension0x65", "Parse"},
+		{"protocol/model", "T0x0200AdditionExtension0x66", "Parse"},
+		{"protocol/model", "T0x0200AdditionExtension0x67", "Parse"},
+		{"protocol/model", "T0x0200AdditionExtension0x70", "Parse"},
+		{"protocol/model", "T0x0704", "Encode"},
+		{"protocol/model", "T0x0704", "Parse"},
+		{"protocol/model", "T0x0800", "Encode"},
+		{"protocol/model", "T0x0800", "Parse"},
+		{"protocol/model", "T0x0801", "Encode"},
+		{"protocol/model", "T0x0801", "Parse"},
+		{"protocol/model", "T0x0805", "Encode"},
+		{"protocol/model", "T0x0805", "Parse"},
+		{"protocol/model", "T0x1003", "Encode"},
+		{"protocol/model", "T0x1003", "Parse"},
+		{"protocol/model", "T0x1005", "Encode"},
+		{"protocol/model", "T0x1005", "Parse"},
+		{"protocol/model", "T0x1205", "Encode"},
+		{"protocol/model", "T0x1205", "Parse"},
+		{"protocol/model", "T0x1206", "Encode"},
+		{"protocol/model", "T0x1206", "Parse"},
+		{"protocol/model", "T0x1210", "Encode"},
+		{"protocol/model", "T0x1210", "Parse"},
+		{"protocol/model", "T0x1211", "Encode"},
+		{"protocol/model", "T0x1211", "Parse"},
+	}},
 }
 
 type glFn struct {
@@ -72,18 +146,20 @@ type glFn struct {
 }
 
 type gl struct {
-	pkgs        map[string]*packages.Package
-	fns         map[*types.Func]*glFn
-	structs     []*types.Named
-	structSeen  map[*types.Named]bool
-	out         strings.Builder // definitions, in dependency order
-	unsupported []string
-	names       map[types.Object]string
-	nameCnt     map[string]int
-	tmp         int
-	cur         *glFn
-	jn          int
-	exported    map[string][]string
+	pkgs         map[string]*packages.Package
+	fns          map[*types.Func]*glFn
+	structs      []*types.Named
+	structSeen   map[*types.Named]bool
+	structByName map[string]bool
+	out          strings.Builder // definitions, in dependency order
+	unsupported  []string
+	names        map[types.Object]string
+	nameCnt      map[string]int
+	tmp          int
+	cur          *glFn
+	jn           int
+	exported     map[string][]string
+	fb           *strings.Builder // definitions of the function being translated
 }
 
 func (g *gl) bad(pos token.Pos, format string, a ...any) {
@@ -134,7 +210,13 @@ func glField(n string) string {
 func shortPkg(path string) string { return path[strings.LastIndex(path, "/")+1:] }
 
 func (g *gl) structName(n *types.Named) string {
-	return shortPkg(n.Obj().Pkg().Path()) + "_" + n.Obj().Name()
+	name := shortPkg(n.Obj().Pkg().Path()) + "_" + n.Obj().Name()
+	if ta := n.TypeArgs(); ta != nil { // an instance of a generic type
+		for i := 0; i < ta.Len(); i++ {
+			name += "_" + strings.Trim(strings.ReplaceAll(g.leanType(ta.At(i)), " ", "_"), "()")
+		}
+	}
+	return name
 }
 
 func isBytesBuffer(t types.Type) bool {
@@ -204,11 +286,22 @@ func (g *gl) leanType(t types.Type) string {
 }
 
 func (g *gl) needStruct(n *types.Named) string {
+	if ta := n.TypeArgs(); ta != nil {
+		for i := 0; i < ta.Len(); i++ {
+			if g.leanType(ta.At(i)) == "" {
+				return "" // an instance over a type outside the fragment
+			}
+		}
+	}
 	name := g.structName(n)
-	if g.structSeen[n] {
+	if g.structSeen[n] || g.structByName[name] {
 		return name
 	}
 	g.structSeen[n] = true
+	if g.structByName == nil {
+		g.structByName = map[string]bool{}
+	}
+	g.structByName[name] = true
 	st := n.Underlying().(*types.Struct)
 	for i := 0; i < st.NumFields(); i++ {
 		g.leanType(st.Field(i).Type()) // registers nested structs first
